@@ -1,0 +1,9 @@
+//go:build verif
+
+// Contracts for package p2pmsg, checked by /verif/govc (see /verif/DESIGN.md). Comments only.
+package p2pmsg
+
+//@ // C20: the signed eon-key message carries exactly the given fields (signing only sets the signature)
+//@ func NewSignedEonPublicKey
+//@   ensures ret1 == nil ==> (ret0 != nil && fresh(ret0) && ret0.InstanceId == instanceID && ret0.PublicKey == eonPublicKey && ret0.ActivationBlock == activationBlock && ret0.KeyperConfigIndex == keyperConfigIndex && ret0.Eon == eon)
+//@   ensures ret1 != nil ==> ret0 == nil
